@@ -6,6 +6,7 @@ copied on a split.  No input is ever constructed and no solver is used: feasibil
 by the IntSet / Lin domains alone.
 """
 from __future__ import annotations
+import re
 import json
 from .domains import IntSet, Lin, INF, ceil_div, fmt_atom
 from .values import *
@@ -938,6 +939,25 @@ class Interp:
                     return mk_const(v["const"], t["w"], t["s"])
                 if k == "bool":
                     return VBool(bool(v["const"]))
+            m = re.match(r"^<Self as (.+)>::(\w+)$", c["uneval"])
+            if m and isinstance(g.get("Self"), dict) and "ty" in g["Self"]:
+                # an associated constant of the trait the running provided method belongs to: the
+                # value the (single) implementation for that Self type gives it
+                sty = g["Self"]["ty"]
+                cands = [x for x in self.f.consts if x["ty"] == sty and x["name"].endswith("::" + m.group(2)) and "{impl#" in x["def"] and x["value"] is not None]
+                if len(cands) == 1:
+                    tt = self.f.types[sty]
+                    val = cands[0]["value"]
+                    if tt["k"] == "int":
+                        return mk_const(val, tt["w"], tt["s"])
+                    if tt["k"] == "bool":
+                        return VBool(bool(val))
+                    if tt["k"] == "adt":
+                        adt = self.f.adts.get(tt["def"])
+                        if adt and adt["kind"] == "enum" and all(not v["fields"] for v in adt["variants"]):
+                            vi = [i for i, v in enumerate(adt["variants"]) if v["discr"] == val]
+                            if len(vi) == 1:
+                                return VAdt(tt["def"], vi[0], [])
             raise Unanalysable("unevaluated constant %s" % c["uneval"])
         if k == "int":
             return mk_const(c["int"], t["w"], t["s"])
@@ -1905,6 +1925,9 @@ class Interp:
         if (b.get("impl_trait") or "").endswith("convert::From"):
             st.event("from_impl", b.get("impl_trait_ref") or b["def"])      # which conversion built a value (error provenance)
         genv = None
+        if b.get("trait") and not b.get("impl_trait") and target is not None and not b.get("generics") and len(target.get("args") or []) == 1:
+            # a method a trait provides: `Self` is the type it is called for
+            genv = {"Self": target["args"][0]}
         if b.get("generics") and target is not None:
             ga = target.get("args") or []
             if len(ga) == len(b["generics"]):
